@@ -17,6 +17,7 @@ RULE = ('cost matrices T(1-40, float32 up to 400) x C(2-8), float64 and float32 
         '(ties), with +inf entries, at the feasibility boundary T = L + repeats (+-1), small (brute force over all C^T labellings), blank among '
         'labels. non-trivial = a finite-cost alignment exists and T > L (some freedom); distinct = hash of (matrix, labels, blank) Negative blank index; alphabets of 130-300 classes with narrow integer label arrays; other memory layouts / label containers of the same numbers. Labels addressed from the end; lines of 33000-68000 frames; costs of 1e39-1e300.')
 RULE += ' Round 6: Read-only matrices; costs below zero.'
+RULE += ' Round 7: Trellises of 18-270 million cells: text packed into one end of the line, double-precision cost ranges, more than 2^27 cells.'
 ASSUMPTIONS = ['"no alignment exists" is read as "no alignment of finite total cost" (subsumes too few frames and blank among labels)',
                'failure must be reported as ValueError (the documented exception)',
                'ties: any optimal alignment is accepted (costs are compared, not paths)']
